@@ -512,11 +512,19 @@ def category(name: str) -> str:
 def make_target(sc, kind, variant):
     """fresh0: freshly constructed; a: fresh + one unrelated step; b: run on other data"""
     tg = Sim(sc, variant)
-    nsteps = {"fresh0": 0, "a": 1, "b": sc["other_steps"]}[kind]
+    nsteps = {"fresh0": 0, "a": 1, "b": sc["other_steps"], "clone": 1}[kind]
     if nsteps:
         X, R, L = tg.inputs(sc["xseed"] + 1000 + variant, nsteps)
         for t in range(nsteps):
             tg.step(t, X, R, L)
+    if kind == "clone":
+        # an instance of the same configuration obtained by copy.deepcopy of a LIVE template (which then moves on):
+        # nothing the clone does on load / afterwards may act on, or read from, the template
+        template = tg
+        tg = copy.deepcopy(template)
+        tg._template = template
+        X, R, L = template.inputs(sc["xseed"] + 2000 + variant, 1)
+        template.step(0, X, R, L)
     return tg
 
 
@@ -563,7 +571,7 @@ def summarize(sc):
 
 
 def judge(ex, sc, k, tkind, status, detail, stream="main"):
-    inprov = (not lazy(sc)) or ((k == 0) == (tkind == "fresh0"))
+    inprov = (not lazy(sc)) or ((k == 0) == (tkind == "fresh0"))     # "clone" has seen one step, like "a"
     case = {"stream": stream, "scenario": sc, "summary": summarize(sc), "checkpoint_step": k, "target": tkind,
             "in_proviso": inprov, "status": status, "detail": detail}
     ex.count("resume-outcome", f"{'in' if inprov else 'out-of'}-proviso:{status}")
@@ -639,6 +647,8 @@ def resume_search(ctx, ex, thorough):
         variant = 0
         for k in range(sc["T"]):
             kinds = ["a", "b"] + (["fresh0"] if (k == 0 or k == 1 or (thorough and k % 5 == 0)) else [])
+            # (layers and trainers cannot be copy.deepcopy'ed at all on the unchanged tree - WeakMethod hook wrappers and
+            # record finalizers raise TypeError - so clone targets exist for the classifier stream only)
             for tkind in kinds:
                 variant += 1
                 status, detail = resume_case(sc, U, k, tkind, variant)
@@ -767,8 +777,16 @@ def classifier_stream(ctx, ex, thorough):
             outs.append(run(src, X[t], L[t]))
             snaps.append(nb.snapshot({"clf": src}))
         for k in range(T):
-            for tkind, m in (("fresh0", 0), ("a", 1), ("b", 3)):
-                tg = mk()
+            for tkind, m in (("fresh0", 0), ("a", 1), ("b", 3), ("clone0", 0), ("cloneb", 2)):
+                if tkind.startswith("clone"):
+                    # an instance of the same configuration obtained by copy.deepcopy of a template that
+                    # lives on (and has itself been run): load hooks / closures must act on the CLONE
+                    template = mk()
+                    gt = nb.gen(4321 + k)
+                    run(template, torch.randint(0, 4, (B, *shape), generator=gt).to(torch.float32), torch.randint(0, K, (B,), generator=gt))
+                    tg = copy.deepcopy(template)
+                else:
+                    tg = mk()
                 go = nb.gen(1234 + k)
                 for _ in range(m):
                     run(tg, torch.randint(0, 4, (B, *shape), generator=go).to(torch.float32), torch.randint(0, K, (B,), generator=go))
